@@ -51,12 +51,12 @@ def run(tier, seed, res):
                                            "programs of 3 threads x 1 op: all schedules (unbounded preemptions); 2 threads creating objects of one "
                                            "lazily initialised class concurrently: all schedules with at most %s preemptions" % ("3" if quick else "6"))
     collect(res, wr)
-    per = 1500 if quick else 200000
+    per = 1500 if quick else 50000
     jobs = [dict(cmd=[b, "rc"], env={"RC_PARAMS": "seed=%d max_success=%d max_size=100" % (seed * 131 + i, per)}, tag="rc") for i in range(n)]
     wr = core.run_workers(PROP, jobs)
     res.absorb(wr, "rc")
     collect(res, wr)
-    rounds = 400 if quick else 100000
+    rounds = 400 if quick else 30000
     jobs = [dict(cmd=[b, "stress", str(t), str(rounds), str(seed * 17 + t)], tag="stress", timeout=120 if quick else 1500) for t in (2, 4, 16)]
     wr = core.run_workers(PROP, jobs, max_parallel=1)
     res.absorb(wr, "stress")
